@@ -17,7 +17,7 @@ theorem noLeadZero_iff {b : List UInt8} : noLeadZero b = true ↔ b.head? ≠ so
   unfold noLeadZero; simp
 
 mutual
-  theorem decodeS_encodeS : ∀ (v : Val) (s : Schema) (it : Item), encodeS s v = some it → decodeS s it = some v
+  theorem decodeS_encodeS (fx : Bool) : ∀ (v : Val) (s : Schema) (it : Item), encodeS s v = some it → decodeS fx s it = some v
     | .bytes b, s, it, h => by
       cases s with
       | bytes => simp [encodeS] at h; subst h; simp [decodeS]
@@ -58,12 +58,12 @@ mutual
         simp [encodeS] at h
         obtain ⟨xs, h1, h2⟩ := h
         subst h2
-        simp [decodeS, decodeAll_encodeAll vs s' xs h1]
+        simp [decodeS, decodeAll_encodeAll fx vs s' xs h1]
       | struct fs =>
         simp [encodeS] at h
         obtain ⟨xs, h1, h2⟩ := h
         subst h2
-        simp [decodeS, decodeFields_encodeFields vs fs xs h1]
+        simp [decodeS, decodeFields_encodeFields fx vs fs xs h1]
       | bytes => simp [encodeS] at h
       | fixed _ => simp [encodeS] at h
       | optFixed _ => simp [encodeS] at h
@@ -78,18 +78,18 @@ mutual
       | big => simp [encodeS] at h
       | listOf _ => simp [encodeS] at h
       | struct _ => simp [encodeS] at h
-  theorem decodeAll_encodeAll : ∀ (vs : List Val) (s : Schema) (xs : List Item),
-      encodeAll s vs = some xs → decodeAll s xs = some vs
+  theorem decodeAll_encodeAll (fx : Bool) : ∀ (vs : List Val) (s : Schema) (xs : List Item),
+      encodeAll s vs = some xs → decodeAll fx s xs = some vs
     | [], s, xs, h => by simp [encodeAll] at h; subst h; simp [decodeAll]
     | v :: vs, s, xs, h => by
       rw [encodeAll] at h
       split at h
       · rename_i x xs' h1 h2
         cases h
-        rw [decodeAll, decodeS_encodeS v s x h1, decodeAll_encodeAll vs s xs' h2]
+        rw [decodeAll, decodeS_encodeS fx v s x h1, decodeAll_encodeAll fx vs s xs' h2]
       · cases h
-  theorem decodeFields_encodeFields : ∀ (vs : List Val) (fs : List Schema) (xs : List Item),
-      encodeFields fs vs = some xs → decodeFields fs xs = some vs
+  theorem decodeFields_encodeFields (fx : Bool) : ∀ (vs : List Val) (fs : List Schema) (xs : List Item),
+      encodeFields fs vs = some xs → decodeFields fx fs xs = some vs
     | [], fs, xs, h => by
       cases fs with
       | nil => simp [encodeFields] at h; subst h; simp [decodeFields]
@@ -102,14 +102,15 @@ mutual
         split at h
         · rename_i x xs' h1 h2
           cases h
-          rw [decodeFields, decodeS_encodeS v f x h1, decodeFields_encodeFields vs fs xs' h2]
+          rw [decodeFields, decodeS_encodeS fx v f x h1, decodeFields_encodeFields fx vs fs xs' h2]
         · cases h
 end
 
+/-! canonicity of the typed layer, for the code as it is (`fx = true`): EVERY schema, `rlp:"nil"` pointers included -/
 mutual
-  theorem encodeS_decodeS : ∀ (it : Item) (s : Schema) (v : Val), noOpt s = true →
-      decodeS s it = some v → encodeS s v = some it
-    | .bytes b, s, v, hn, h => by
+  theorem encodeS_decodeS : ∀ (it : Item) (s : Schema) (v : Val),
+      decodeS true s it = some v → encodeS s v = some it
+    | .bytes b, s, v, h => by
       cases s with
       | bytes => simp [decodeS] at h; subst h; simp [encodeS]
       | fixed n =>
@@ -129,52 +130,69 @@ mutual
         obtain ⟨h1, h2⟩ := h
         subst h2
         simp [encodeS, toBE_fromBE b (noLeadZero_iff.mp h1)]
-      | optFixed n => simp [noOpt] at hn
+      | optFixed n =>
+        simp only [decodeS] at h
+        split at h
+        · rename_i hb
+          cases h
+          have : b = [] := by cases b with
+            | nil => rfl
+            | cons a t => simp at hb
+          subst this; simp [encodeS]
+        · rename_i hb
+          split at h
+          · rename_i hl
+            cases h
+            have hpos : 0 < n := by
+              cases b with
+              | nil => simp at hb
+              | cons a t => simp at hl; omega
+            simp [encodeS, hl, hpos]
+          · cases h
       | listOf _ => simp [decodeS] at h
       | struct _ => simp [decodeS] at h
-    | .list xs, s, v, hn, h => by
+    | .list xs, s, v, h => by
       cases s with
       | listOf s' =>
         simp [decodeS] at h
         obtain ⟨vs, h1, h2⟩ := h
         subst h2
-        simp [encodeS, encodeAll_decodeAll xs s' vs (by simpa [noOpt] using hn) h1]
+        simp [encodeS, encodeAll_decodeAll xs s' vs h1]
       | struct fs =>
         simp [decodeS] at h
         obtain ⟨vs, h1, h2⟩ := h
         subst h2
-        simp [encodeS, encodeFields_decodeFields xs fs vs (by simpa [noOpt] using hn) h1]
-      | optFixed n => simp [noOpt] at hn
+        simp [encodeS, encodeFields_decodeFields xs fs vs h1]
+      | optFixed n => simp [decodeS] at h
       | bytes => simp [decodeS] at h
       | fixed _ => simp [decodeS] at h
       | uint _ => simp [decodeS] at h
       | big => simp [decodeS] at h
-  theorem encodeAll_decodeAll : ∀ (xs : List Item) (s : Schema) (vs : List Val), noOpt s = true →
-      decodeAll s xs = some vs → encodeAll s vs = some xs
-    | [], s, vs, _, h => by simp [decodeAll] at h; subst h; simp [encodeAll]
-    | x :: xs, s, vs, hn, h => by
+  theorem encodeAll_decodeAll : ∀ (xs : List Item) (s : Schema) (vs : List Val),
+      decodeAll true s xs = some vs → encodeAll s vs = some xs
+    | [], s, vs, h => by simp [decodeAll] at h; subst h; simp [encodeAll]
+    | x :: xs, s, vs, h => by
       rw [decodeAll] at h
       split at h
       · rename_i v vs' h1 h2
         cases h
-        rw [encodeAll, encodeS_decodeS x s v hn h1, encodeAll_decodeAll xs s vs' hn h2]
+        rw [encodeAll, encodeS_decodeS x s v h1, encodeAll_decodeAll xs s vs' h2]
       · cases h
-  theorem encodeFields_decodeFields : ∀ (xs : List Item) (fs : List Schema) (vs : List Val), noOptAll fs = true →
-      decodeFields fs xs = some vs → encodeFields fs vs = some xs
-    | [], fs, vs, _, h => by
+  theorem encodeFields_decodeFields : ∀ (xs : List Item) (fs : List Schema) (vs : List Val),
+      decodeFields true fs xs = some vs → encodeFields fs vs = some xs
+    | [], fs, vs, h => by
       cases fs with
       | nil => simp [decodeFields] at h; subst h; simp [encodeFields]
       | cons f fs => simp [decodeFields] at h
-    | x :: xs, fs, vs, hn, h => by
+    | x :: xs, fs, vs, h => by
       cases fs with
       | nil => simp [decodeFields] at h
       | cons f fs =>
         rw [decodeFields] at h
-        simp only [noOptAll, Bool.and_eq_true] at hn
         split at h
         · rename_i v vs' h1 h2
           cases h
-          rw [encodeFields, encodeS_decodeS x f v hn.1 h1, encodeFields_decodeFields xs fs vs' hn.2 h2]
+          rw [encodeFields, encodeS_decodeS x f v h1, encodeFields_decodeFields xs fs vs' h2]
         · cases h
 end
 
